@@ -1645,6 +1645,8 @@ fn replay(path: &Path) -> ! {
 }
 
 fn main() {
+    // one build epoch for every in-process compile
+    unsafe { std::env::set_var("SOURCE_DATE_EPOCH", "1700000000") };
     let args = vcore::parse_args();
     if let Some(p) = &args.replay {
         replay(p);
@@ -1653,8 +1655,8 @@ fn main() {
     let hook = std::panic::take_hook();
     std::panic::set_hook(Box::new(|_| {}));
     let pure = part_pure(&mut rep, args.tier);
-    std::panic::set_hook(hook);
     let font = part_font(&mut rep, args.tier);
+    std::panic::set_hook(hook);
     rep.set("evaluations", pure.evaluations + font.evaluations);
     rep.set("distinct_nontrivial", pure.nontrivial + font.nontrivial);
     rep.set("rule", "evaluations = grid points judged (every point of the offset grid for every rule list; points are judged in groups that share the set of containing rules and the first containing output box). distinct_nontrivial = distinct rule lists (distinct by construction of the enumeration) in which at least two rules contain a common grid point, i.e. substitutions really have to be combined; part (ii) adds the grid points judged on compiled fonts and the compiled fonts whose rules overlap at some grid point");
